@@ -214,6 +214,73 @@ fn main() {
             c13.sample(s);
         }
     }
+    // larger shapes, structured: every placement of two or three real inners among dummies
+    // (clean or garbage-filled), the later ones agreeing or conflicting in exactly one
+    // metadata field: position- and count-dependent reference logic at M = 8 and 16
+    let mut placed = 0u64;
+    for (m, n) in [(8usize, 1usize), (16, 1)] {
+        let w = build_pub_wrapper(m, n, &leaf.data.common);
+        let cx = Cx::new(&w.data);
+        let mut cases: Vec<(Vec<usize>, usize, usize)> = Vec::new(); // (positions, variant of the last real, dummy style)
+        for i in 0..m {
+            for j in i + 1..m {
+                for var in 0..4 {
+                    for ds in 0..2 {
+                        cases.push((vec![i, j], var, ds));
+                    }
+                }
+                if m == 8 || thorough {
+                    for k in j + 1..m {
+                        for var in 1..4 {
+                            cases.push((vec![i, j, k], var, (i + j + k) % 2));
+                        }
+                    }
+                }
+            }
+        }
+        let evals: Vec<(Vec<Inner>, bool, Vec<u64>, String)> = cases
+            .par_iter()
+            .map(|(pos, var, ds)| {
+                let inners: Vec<Inner> = (0..m)
+                    .map(|k| {
+                        let ix: Vec<usize> = if let Some(r) = pos.iter().position(|&p| p == k) {
+                            let last = r + 1 == pos.len();
+                            // variant of the last real inner: 0 consistent, 1 other block hash, 2 other asset, 3 other fee
+                            vec![if last && *var == 1 { 2 } else { 1 }, (last && *var == 2) as usize, (last && *var == 3) as usize, r % 2, 1, 0, 0]
+                        } else if *ds == 0 {
+                            vec![0, 0, 0, 0, 0, 0, 0]
+                        } else {
+                            vec![0, 1, 1, 1, 1, 1, 1]
+                        };
+                        inner(&ix, n, k as u64)
+                    })
+                    .collect();
+                match cx.run(&w.inputs(addrs[1], &inners), &[], &[], false).verdict {
+                    Verdict::Accept { pis, .. } => (inners, true, pis, String::new()),
+                    Verdict::Reject(r) => (inners, false, vec![], format!("{r:?}")),
+                }
+            })
+            .collect();
+        for ((pos, var, ds), (inners, accept, pis, rej)) in cases.iter().zip(&evals) {
+            placed += 1;
+            total += 1;
+            c12.distinct(hash64(&(inners, m)));
+            c13.distinct(hash64(&(inners, m)));
+            let case = json!({"m": m, "n": n, "address": addrs[1], "inners": inners.iter().map(|i| i.pis.clone()).collect::<Vec<_>>()});
+            let spec = public_accepts(inners);
+            let key = format!("placed:{m}:{pos:?}:{var}:{ds}");
+            if *accept != spec.is_ok() {
+                let what = if *accept {
+                    format!("public-batch wrapper (M={m}) with real inners at positions {pos:?} is satisfiable although the spec rejects: {}", spec.unwrap_err())
+                } else {
+                    format!("public-batch wrapper (M={m}) with real inners at positions {pos:?} rejects metadata-consistent inners: {rej}")
+                };
+                c13.violation(&key, &what, case);
+            } else if *accept && pis != &public_agg(addrs[1], inners) {
+                c12.violation(&key, &format!("public-batch output (M={m}) with real inners at positions {pos:?} differs from order-preserving forwarding"), case);
+            }
+        }
+    }
     // larger shapes, sampled
     let mut sampled = 0u64;
     for (m, n) in [(8usize, 8usize), (16, 1)] {
@@ -244,6 +311,7 @@ fn main() {
     for rep in [&c12, &c13] {
         rep.eval(total);
         rep.extra("vector_sets", json!(sets));
+        rep.extra("placement_family_runs (M=8,16: every pair / triple of real positions x conflict variant x dummy style)", json!(placed));
         rep.extra("sampled_runs_8x8_16x1 (NOT part of the exhaustive counts)", json!(sampled));
         rep.extra("inner_alphabet", json!({"block hash": "{0,B1,B2,B1 with each limb bumped,B1 with limb0+1/limb1-1, non-zero hashes a careless zero test calls padding: [1,p-1,0,0] (limb sum 0), [0,0,0,5], [5,0,0,0]}", "asset": "{0,1}", "fee": "{0,7}", "number": "{3,4}", "slots": "{all zero, non-zero sums+accounts (also on zero-hash inners)}", "nullifiers": "{distinct per inner, shared across inners}", "padding": "{0,9}", "addresses": "{0, A, all limbs p-1} rotating"}));
         rep.rule("case = (address, M inner private-batch statements) assigned to the free inner public inputs of the circuit built by the real build_public_batch_constraints; full product of the inner archetype alphabet for M<=2, of a sub-alphabet for M>=3 (sizes under vector_sets); oracles: acceptance == spec predicate and constant on classes that differ only in never-cross-checked fields (C13), output == forwarding with per-inner segment ownership (C12). distinct = distinct (address, inners)");
